@@ -144,13 +144,13 @@ def inline_text(fn, e, depth=0):
     return show(e)
 
 
-def cond_text(fn, cond, truth):
+def cond_text(fn, cond, truth, deep=False):
     """(text, truth) of a MIR branch with leading negations folded into the truth value."""
     d = cond_def(fn, cond)
     while d.get("k") == "un" and d["op"] == "!":
         truth = not truth
         d = cond_def(fn, d["e"])
-    return inline_text(fn, d), truth
+    return (deep_text(fn, d, user=False) if deep else inline_text(fn, d)), truth
 
 
 class TextGate(Monitor):
@@ -158,9 +158,9 @@ class TextGate(Monitor):
     inlined text of branch conditions; for `match` switches the text is `<scrutinee>=<Variant>` and
     want is True.  Statement points in est_pts establish too.  m: 0/1."""
 
-    def __init__(self, fn, accept_pts, alts, reset_pts=(), est_pts=(), check_exit=False):
+    def __init__(self, fn, accept_pts, alts, reset_pts=(), est_pts=(), check_exit=False, deep=False):
         self.fn, self.accept, self.alts, self.reset = fn, set(accept_pts), alts, set(reset_pts)
-        self.est, self.check_exit = set(est_pts), check_exit
+        self.est, self.check_exit, self.deep = set(est_pts), check_exit, deep
 
     def elem(self, m, pt, e, s):
         if pt in self.accept and not m:
@@ -175,9 +175,9 @@ class TextGate(Monitor):
         if cond is None:
             return m
         if truth is not None:
-            txt, t = cond_text(self.fn, cond, truth)
+            txt, t = cond_text(self.fn, cond, truth, self.deep)
         elif isinstance(edge.lab, dict) and (edge.lab.get("name") or edge.lab.get("case") or edge.lab.get("default")):
-            txt, t = cond_text(self.fn, cond, True)
+            txt, t = cond_text(self.fn, cond, True, self.deep)
             txt, t = "%s=%s" % (txt, edge.lab.get("name") or ("default" if edge.lab.get("default") else edge.lab.get("v"))), True
         else:
             return m
@@ -192,13 +192,13 @@ class TextGate(Monitor):
         return None
 
 
-def text_gate(ctx, rule, fn, accept_pts, preds, accept_desc="accept", est_pts=(), at_exit=False):
+def text_gate(ctx, rule, fn, accept_pts, preds, accept_desc="accept", est_pts=(), at_exit=False, deep=False):
     """preds: list of (label, [((needle, …), want), …])."""
     if not accept_pts and not at_exit:
         ctx.bad(rule, "%s:no-accept-point" % fn.name, "no %s point found in %s" % (accept_desc, fn.name))
         return
     for label, alts in preds:
-        s = Search(fn, TextGate(fn, accept_pts, alts, est_pts=est_pts, check_exit=at_exit), budget=2000000)
+        s = Search(fn, TextGate(fn, accept_pts, alts, est_pts=est_pts, check_exit=at_exit, deep=deep), budget=2000000)
         v = s.run(0)
         key = "%s:%s" % (fn.name.split("::")[-1], label)
         if v is None:
@@ -284,10 +284,32 @@ def c14_rust(ctx):
              const_ret_points(conflict, 1), "a keyword is kept only if, for every non-candidate token, the word token is already coincident or has the same conflict status")
     c14_regex_threading(ctx, F)
     c14_tie_break(ctx, F)
+    c14_lex_state_merge(ctx, F)
     fn = find_fn(ctx, F, "build_tables::identify_keywords", "G3")
     if fn:
         empty = [pt for pt, c, d in calls_named(fn, "TokenSet::new")]
         text_gate(ctx, "G3", fn, empty, [("no word token ⇒ no keywords", [(("is_none",), True)])], accept_desc="returning the empty keyword set")
+
+
+def c14_lex_state_merge(ctx, F):
+    """C14.G4: two parse states share one lex state (their valid-token sets are merged) only if no
+    token of either set conflicts with the other set — the check is directed (token i beats token j),
+    so it has to be made from both sides."""
+    fn = find_fn(ctx, F, "build_lex_table::merge_token_set", "G4")
+    if not fn or len(fn.params) < 2:
+        return
+    a, b = fn.params[0]["name"], fn.params[1]["name"]
+    merges = [pt for pt, c, d in calls_named(fn, "TokenSet::insert_all")]
+    ctx.floor("token-set merges in merge_token_set", len(merges), 1)
+    text_gate(ctx, "G4", fn, merges, [
+        ("no token only in `%s` conflicts with `%s`" % (a, b), [(("Iterator::any(", "closure{0: &*%s," % b), False)]),
+        ("no token only in `%s` conflicts with `%s`" % (b, a), [(("Iterator::any(", "closure{0: &*%s," % a), False)]),
+    ], accept_desc="merging the two token sets", deep=True)
+    cl = [f for f in F.fn_list if f.name.startswith(fn.name + "::{closure") and calls_named(f, "check_token_conflicts")]
+    if len(cl) >= 2:
+        ctx.ok("G4", "merge_token_set:checks-use-check_token_conflicts", "%d directed conflict checks (check_token_conflicts)" % len(cl))
+    else:
+        ctx.bad("G4", "merge_token_set:checks-use-check_token_conflicts", "merge_token_set has only %d closure(s) calling check_token_conflicts; the conflict test is directed and must be made from both token sets" % len(cl))
 
 
 def c14_regex_threading(ctx, F):
